@@ -7,6 +7,7 @@ import (
 	"crypto/sha256"
 	"encoding/binary"
 	"encoding/hex"
+	"errors"
 	"fmt"
 	"math/rand/v2"
 	"os"
@@ -170,36 +171,52 @@ func goid() int64 {
 // goroutines that were created on different Ps; goroutines with equal labels run the same code on
 // the same inputs and are interchangeable.
 func entryLabel() string {
+	l, _ := entryLabelAndParent()
+	return l
+}
+
+// entryLabelAndParent also returns the id of the goroutine that created the caller (0 if unknown).
+func entryLabelAndParent() (string, int64) {
 	buf := make([]byte, 16384)
 	n := runtime.Stack(buf, false)
 	lines := strings.Split(string(buf[:n]), "\n")
 	for i := len(lines) - 1; i >= 0; i-- {
 		if strings.HasPrefix(lines[i], "created by ") && i >= 2 {
-			fn := strings.TrimSpace(lines[i-2])
-			k := strings.LastIndex(fn, "(")
-			if k < 0 {
-				return fn
+			var parent int64
+			if j := strings.LastIndex(lines[i], " in goroutine "); j >= 0 {
+				parent, _ = strconv.ParseInt(strings.TrimSpace(lines[i][j+len(" in goroutine "):]), 10, 64)
 			}
-			name, args := fn[:k], strings.Split(strings.TrimSuffix(fn[k+1:], ")"), ", ")
-			var small []string
-			for _, a := range args {
-				a = strings.TrimSuffix(a, "?")
-				if v, err := strconv.ParseUint(strings.TrimPrefix(a, "0x"), 16, 64); err == nil && v < 1<<20 {
-					small = append(small, a)
-				}
-			}
-			if j := strings.LastIndex(name, "/"); j >= 0 {
-				name = name[j+1:]
-			}
-			return name + "(" + strings.Join(small, ",")
+			l := entryLabelFrom(lines, i)
+			return l, parent
 		}
 	}
-	return ""
+	return "", 0
+}
+
+func entryLabelFrom(lines []string, i int) string {
+	fn := strings.TrimSpace(lines[i-2])
+	k := strings.LastIndex(fn, "(")
+	if k < 0 {
+		return fn
+	}
+	name, args := fn[:k], strings.Split(strings.TrimSuffix(fn[k+1:], ")"), ", ")
+	var small []string
+	for _, a := range args {
+		a = strings.TrimSuffix(a, "?")
+		if v, err := strconv.ParseUint(strings.TrimPrefix(a, "0x"), 16, 64); err == nil && v < 1<<20 {
+			small = append(small, a)
+		}
+	}
+	if j := strings.LastIndex(name, "/"); j >= 0 {
+		name = name[j+1:]
+	}
+	return name + "(" + strings.Join(small, ",")
 }
 
 type parkReq struct {
-	entry string
-	goid  int64
+	entry  string
+	parent int64 // id of the goroutine that created the reader
+	goid   int64
 	kind  string
 	reply chan *DRBG
 }
@@ -223,6 +240,9 @@ type Stepper struct {
 	// BeforeRelease (C19) is called with the ordinal of the parked read about to be served and its
 	// substream; it may inject a fault (make the read fail, cancel a context, sleep past a deadline).
 	BeforeRelease func(ord int, d *DRBG)
+	// Filter, when set, is shown the parked readers (canonical order) at every release and returns the
+	// ones that may be served now (nil or empty: all). It lets a driver starve a family of goroutines.
+	Filter func(parked []*parkReq) []*parkReq
 	// IdleHook is called when the worker is not done and nothing is parked; returning true means the
 	// hook did something that may unblock the system (e.g. advanced the fake clock).
 	IdleHook func() bool
@@ -240,7 +260,15 @@ type NodeRand struct {
 	node string
 	kind string
 	main *DRBG
+	// FailAt > 0: the FailAt-th Read of this node (from any of its goroutines) returns ErrEntropyFault
+	// once: the node's entropy source breaks in the middle of whatever step is running.
+	FailAt int
+	Count  int
+	Fired  bool
 }
+
+// ErrEntropyFault is what an injected entropy failure returns.
+var ErrEntropyFault = errors.New("simulated entropy failure")
 
 func (st *Stepper) NewNodeRand(node, kind string) *NodeRand {
 	r := &NodeRand{st: st, node: node, kind: kind, main: NewDRBG(st.Seed, node, kind, "main")}
@@ -253,6 +281,16 @@ func (r *NodeRand) Main() *DRBG { return r.main }
 func (r *NodeRand) Read(p []byte) (int, error) {
 	Tick()
 	st := r.st
+	st.mu.Lock()
+	r.Count++
+	hit := r.FailAt > 0 && r.Count == r.FailAt
+	if hit {
+		r.Fired = true
+	}
+	st.mu.Unlock()
+	if hit {
+		return 0, ErrEntropyFault
+	}
 	if st.RaceMode {
 		// C09(b): real goroutines under the race detector; which goroutine gets which bytes is left
 		// to the Go scheduler on purpose
@@ -265,7 +303,8 @@ func (r *NodeRand) Read(p []byte) (int, error) {
 	if w == 0 || g == w {
 		return r.main.Read(p)
 	}
-	req := &parkReq{goid: g, entry: entryLabel(), kind: r.node + "/" + r.kind, reply: make(chan *DRBG, 1)}
+	el, par := entryLabelAndParent()
+	req := &parkReq{goid: g, entry: el, parent: par, kind: r.node + "/" + r.kind, reply: make(chan *DRBG, 1)}
 	st.mu.Lock()
 	st.parked = append(st.parked, req)
 	st.mu.Unlock()
@@ -359,19 +398,44 @@ func (st *Stepper) ServeParked() bool {
 			st.nextLabel++
 		}
 	}
-	idx := st.Ch.Pick(len(parked), func() int {
+	cands := parked
+	if st.Filter != nil {
+		if f := st.Filter(parked); len(f) > 0 {
+			cands = f
+		}
+	}
+	idx := st.Ch.Pick(len(cands), func() int {
 		// mostly creation order, sometimes another goroutine first
 		if st.Ch.Rng().IntN(4) == 0 {
-			return st.Ch.Rng().IntN(len(parked))
+			return st.Ch.Rng().IntN(len(cands))
 		}
 		return 0
 	})
 	if idx != 0 {
 		st.Reordered++
 	}
-	p := parked[idx]
+	p := cands[idx]
+	rest := make([]*parkReq, 0, len(parked))
+	for _, x := range parked {
+		if x != p {
+			rest = append(rest, x)
+		}
+	}
 	st.mu.Lock()
-	st.parked = append(append([]*parkReq{}, parked[:idx]...), parked[idx+1:]...)
+	// readers that parked since the snapshot was taken stay parked
+	for _, x := range st.parked {
+		known := false
+		for _, y := range parked {
+			if x == y {
+				known = true
+				break
+			}
+		}
+		if !known {
+			rest = append(rest, x)
+		}
+	}
+	st.parked = rest
 	st.mu.Unlock()
 	key := fmt.Sprintf("%d/%s", st.labels[p.goid], p.kind)
 	d := st.subs[key]
@@ -408,6 +472,7 @@ type Node struct {
 	Errs     []*tss.Error
 	ErrSteps []int
 	Silenced bool
+	Crashed  bool // an injected entropy failure made one of its calls panic
 	Byz      bool
 	Emitted  []*Emission
 }
@@ -481,6 +546,23 @@ type World struct {
 	Violation *Violation
 	Quiet     bool
 	RoundOf   func(msgType string) int
+	// lockDepth counts, through the verif hook, party-mutex acquisitions not yet released in the step in
+	// progress (TrackLocks): after a step that panicked it tells whether the party left its mutex locked.
+	lockDepth    int32
+	locksTracked bool
+}
+
+// TrackLocks installs the party-mutex hook for this world; the returned function removes it.
+func (w *World) TrackLocks() func() {
+	w.locksTracked = true
+	tss.SimYield = func(p *tss.BaseParty, point string) {
+		if point == "lock" {
+			atomic.AddInt32(&w.lockDepth, 1)
+		} else {
+			atomic.AddInt32(&w.lockDepth, -1)
+		}
+	}
+	return func() { tss.SimYield = nil }
 }
 
 func NewWorld(seed string, ch *Chooser) *World {
@@ -701,6 +783,31 @@ func errString(e *tss.Error) string {
 
 func (w *World) finishStep(ev *StepEvent) {
 	n := ev.Node
+	if ev.Outcome.Panic != nil && n.Rand != nil && n.Rand.Fired && !n.Crashed && strings.Contains(fmt.Sprint(ev.Outcome.Panic), ErrEntropyFault.Error()) {
+		// the injected entropy failure surfaced as a panic of this call: the node crashed in mid-step.
+		// What it had already handed to its out channel is on the wire. If it left its mutex locked no
+		// further call can be made on it (it is dead); otherwise the application may keep driving it.
+		n.Crashed = true
+		w.Faults["entropy-crash"]++
+		held := !w.locksTracked || atomic.LoadInt32(&w.lockDepth) > 0
+		atomic.StoreInt32(&w.lockDepth, 0)
+		if held {
+			n.Silenced = true
+			w.Probes["crashed_with_its_mutex_held"]++
+		} else {
+			w.Probes["crashed_but_can_still_be_driven"]++
+		}
+		w.Logf("  -> FAULT node %s crashed in mid-step at entropy read %d (mutex left locked: %v)", n.Name, n.Rand.FailAt, held)
+		w.drain(n, ev)
+		w.Events = append(w.Events, ev)
+		for _, f := range w.AfterStep {
+			if v := f(ev); v != nil && w.Violation == nil {
+				w.Violation = v
+			}
+		}
+		return
+	}
+	atomic.StoreInt32(&w.lockDepth, 0)
 	if ev.Outcome.Panic != nil {
 		w.fail("panic", "node %s %s: panic: %v\n%s", n.Name, ev.Kind, ev.Outcome.Panic, firstRepoFrames(ev.Outcome.Stack))
 	}
